@@ -603,6 +603,7 @@ func genAccProgram(t *Tape, mutate bool) string {
 }
 
 var procSelectors = []string{"$", "$.items", "$.a", "$.b", "$[0]", "$[-1]", "$.items[0]", "$.zz", "$.a.length()", "$.id", "[$]", "$.items.sort()", "\"lit\"", "$.b[1]",
+	"$[0][0]", "$[-1][1]", "$.items[0][0]", "$.a[1][-1]", "\"lit\"[1]", "$[0].id", "$[1][\"t\"]", "$[\"id\"]", "$.b[0][0][0]", "$.items[0].length()", "$[0][5]", "$.id[0]", "$.t.x", "$[\"a\"][0]",
 	"[$.a, $.b]", "$.pluck(\"id\", \"t\")", "{x: $.id, y: [1, 2]}", "match ($) { [a, b] => b, other => other }", "$ is array", "$.id + 1", "-1", "$.items[-1]", "'a b'", "$.t && $.id", "[1,2,3]"}
 
 func genProcCase(t *Tape, c01only bool) *ProcCase {
@@ -682,7 +683,9 @@ func genProcCase(t *Tape, c01only bool) *ProcCase {
 	c.Extra = t.Draw(3)
 	// fault states of the simulated filesystem
 	if t.Chance(1, 5) {
-		switch t.Weighted(3, 3, 2, 2, 2, 2, 2, 2) {
+		fk := t.Weighted(3, 3, 2, 2, 2, 2, 2, 2, 3)
+		forcePrefix := fk == 8
+		switch fk {
 		case 0:
 			if len(c.Inputs) > 0 {
 				c.Inputs[t.Draw(len(c.Inputs))].Kind = "missing"
@@ -705,14 +708,23 @@ func genProcCase(t *Tape, c01only bool) *ProcCase {
 			c.OMode = "devfull"
 		default:
 			// stream-level defects in a regular file or on stdin
+			prefix := ""
+			if forcePrefix {
+				// bytes in front of the first value that no JSON text starts with
+				prefix = []string{"\xef\xbb\xbf", "\xef\xbb\xbf", "\xef\xbb\xbf", "\xff\xfe", "\xfe\xff", "\x00", "#!jq\n", "\x1f\x8b", ")]}'\n", "\xc2\xa0", "\x0b", "\xef\xbb"}[t.Draw(12)]
+			}
 			if len(c.Inputs) > 0 {
 				i := t.Draw(len(c.Inputs))
 				d := c.Inputs[i].Data
-				if len(d) > 0 {
+				if prefix != "" {
+					c.Inputs[i].Data = append(QBytes(prefix), d...)
+				} else if len(d) > 0 {
 					c.Inputs[i].Data = d[:t.Draw(len(d))]
 				}
 			} else if len(c.Stdin) > 0 {
-				if t.Chance(1, 2) {
+				if prefix != "" {
+					c.Stdin = append(QBytes(prefix), c.Stdin...)
+				} else if t.Chance(1, 2) {
 					c.Stdin = c.Stdin[:t.Draw(len(c.Stdin))]
 				} else {
 					c.Stdin = append(c.Stdin, []byte(" ] x")...)
@@ -789,7 +801,9 @@ func genProcStreamCase(t *Tape) *ProcCase {
 		d := []byte(*target)
 		if len(d) > 0 {
 			off := t.Draw(len(d) + 1)
-			switch t.Weighted(3, 2, 2) {
+			switch t.Weighted(3, 2, 2, 1) {
+			case 3:
+				d = append([]byte([]string{"\xef\xbb\xbf", "\xff\xfe", "\x00", ")]}'\n", "\x1f\x8b"}[t.Draw(5)]), d...)
 			case 0:
 				d = d[:off]
 			case 1:
